@@ -147,7 +147,7 @@ def _real_pool_job(args):
     from harness import realrun
     root = os.path.join(_CTX["work"], f"rp{os.getpid()}_{idx}")
     try:
-        kw = {k: spec[k] for k in ("moves", "cap", "sleep", "more", "delete_old", "delete_old_all") if k in spec}
+        kw = {k: spec[k] for k in ("moves", "cap", "sleep", "more", "delete_old", "delete_old_all", "turtle") if k in spec}
         res = realrun.real_run(root, spec["n"], spec["workers"], spec["steps"], spec["seed"],
                                kills=[tuple(k) for k in spec.get("kills", [])], **kw)
     except Exception as exc:  # noqa: BLE001
@@ -156,6 +156,23 @@ def _real_pool_job(args):
     finally:
         sysdrv.cleanup(root)
     return idx, res
+
+
+def turtle_pool_specs(seed, count, kills=True):
+    """Histories of the unmodified scheduler with the real TurtleMD engine (8 ensembles, several workers)."""
+    rnd = random.Random(seed)
+    specs = []
+    for i in range(count):
+        w = rnd.choice([2, 3, 4])
+        steps = rnd.randrange(8, 16)
+        sp = {"n": 8, "workers": w, "steps": steps, "seed": rnd.randrange(1, 10 ** 6), "turtle": True,
+              "moves": rnd.choice([["sh"] * 8, ["sh", "sh", "wf", "wf", "wf", "wf", "wf", "wf"], ["sh", "wf", "sh", "wf", "sh", "wf", "sh", "sh"]])}
+        if kills and i % 2 == 1:
+            sp["kills"] = [["ev", rnd.randrange(4, 2 * steps), rnd.choice([0.0, 0.002, 0.01])]]
+        if i % 3 == 0:
+            sp["more"] = rnd.randrange(2, 5)
+        specs.append(sp)
+    return specs
 
 
 def real_pool_specs(seed, count, kills=True, n_values=(3, 4), restarts_more=True):
